@@ -101,11 +101,22 @@ SIGS['every-math'] = {
     'envs': dict(SIGS['every']['envs']),
     'specials': ['~'], 'verb': False, 'mathy': True,
 }
+SIGS['c12'] = {
+    'macros': dict({k: SIGS['default']['macros'][k] for k in
+                    ('textbf', 'emph', 'textit', 'text', 'mathrm', 'frac', 'sqrt', 'section',
+                     'item', 'cite', 'hat', 'alpha', 'ldots', 'foo', '&', ',', 'ensuremath',
+                     'xrightarrow')},
+                   dmac=[S('o'), S('m')], dmacb=[S('m'), S('m')]),
+    'envs': dict({k: SIGS['default']['envs'][k] for k in
+                  ('itemize', 'enumerate', 'equation', 'align*', 'x', 'center', 'tabular')},
+                 denv=([S('o')], None)),
+    'specials': ['~', '&', '--', '``'], 'verb': False,
+}
 SIGS['default-noverb'] = dict(SIGS['default'], verb=False)
 SIGS['every-noverb'] = dict(SIGS['every'], macros={k: v for k, v in SIGS['every']['macros'].items()
                                                    if k not in ('mv', 'mvb')})
 # which real context a signature table is parsed with
-CTX_OF = {'default-math': 'default', 'every-math': 'every', 'default': 'default', 'every': 'every', 'default-noverb': 'default',
+CTX_OF = {'c12': 'c12', 'default-math': 'default', 'every-math': 'every', 'default': 'default', 'every': 'every', 'default-noverb': 'default',
           'every-noverb': 'every', 'every-strings': 'every-strings',
           'every-nounknown': 'every-nounknown'}
 
@@ -734,7 +745,7 @@ def _emit(items, mode, bracket, out, maths):
 
 
 def _env_body_mode(name):
-    for sig in (SIGS['every'], SIGS['default']):
+    for sig in (SIGS['every'], SIGS['default'], SIGS['c12']):
         if name in sig['envs']:
             return sig['envs'][name][1]
     return None
@@ -766,7 +777,7 @@ def _render_slot(sl, sg):
 def _lookup_slots(what, name, n):
     """slot signatures (delimiters of r/d arguments, argument modes); names are unique
     across the signature tables"""
-    for sig in (SIGS['every'], SIGS['default']):
+    for sig in (SIGS['every'], SIGS['default'], SIGS['c12']):
         if what == 'macros' and name in sig['macros'] and len(sig['macros'][name]) == n:
             return sig['macros'][name]
         if what == 'envs' and name in sig['envs'] and len(sig['envs'][name][0]) == n:
